@@ -36,7 +36,7 @@ ASSUMPTIONS = ["TODO"]
 LEVEL_SETS_1 = [[110.0], [110.0], [20.0], [10.0], [220.0]]
 LEVEL_SETS_2 = [[110.0, 20.0], [220.0, 110.0], [380.0, 110.0], [110.0, 10.0], [110.0, 20.0, 0.4], [220.0, 110.0, 10.0]]
 
-BASE = dict(nb_level=(3, 8), nb_max=14, extra_branches=(1, 4), oos=0.0, switches=False, switch_z=False,
+BASE = dict(nb_level=(4, 9), nb_max=16, extra_branches=(1, 3), oos=0.0, switches=False, switch_z=False,
             noslack_island=False, dcline=False, zip=False, trafo3w=False, scaling=False, second_slack=True,
             shifts=(0.0,), tap_types=(None, "Ratio", "Symmetrical"), custom_index=True,
             branch_kinds={"line": 9, "impedance": 1, "bb": 0},
@@ -48,12 +48,28 @@ PROFILES = {
 }
 
 
+def _tame(recipe, keep_slack_gen):
+    """keep the recipe inside the domain get_equivalent is written for (see ASSUMPTIONS)"""
+    slack_buses = set()
+    out = []
+    for e in recipe["el"]:
+        e.pop("tap_step_degree", None)      # tap phase shifters: same limitation as shift_degree
+        if e["t"] == "gen" and e.get("slack") and not keep_slack_gen:
+            e = {"t": "ext_grid", "bus": e["bus"], "vm_pu": e["vm_pu"], "va_degree": 0.0}
+        if e["t"] == "ext_grid" or (e["t"] == "gen" and e.get("slack")):
+            if e["bus"] in slack_buses:     # "only one slack at individual bus" (assert in ward_generation.py)
+                continue
+            slack_buses.add(e["bus"])
+        out.append(e)
+    recipe["el"] = out
+    return recipe
+
+
 @st.composite
 def _case(draw, tier, profile=None):
     pname = profile or draw(st.sampled_from(sorted(PROFILES)))
     recipe = draw(netgen.grid(PROFILES[pname]))
-    for e in recipe["el"]:          # no tap phase shifters (same documented limitation as shift_degree)
-        e.pop("tap_step_degree", None)
+    _tame(recipe, keep_slack_gen=draw(st.integers(0, 5)) == 0)
     eq_type = draw(st.sampled_from(["ward", "xward", "rei"]))
     kw = {}
     if eq_type == "rei":
@@ -62,7 +78,8 @@ def _case(draw, tier, profile=None):
                 kw[k] = draw(st.booleans())
     return {"recipe": recipe, "profile": pname, "seed": draw(st.integers(0, 40)), "radius": draw(st.integers(0, 2)),
             "variant": draw(st.sampled_from(["inner", "outer"])), "give": draw(st.sampled_from(["one", "all"])),
-            "close": draw(st.sampled_from([True, True, False])), "eq_type": eq_type, "kw": kw}
+            "close": draw(st.sampled_from([True, True, False])), "prune": draw(st.integers(0, 6)) != 0,
+            "eq_type": eq_type, "kw": kw}
 
 
 def strategy(tier):
@@ -132,10 +149,17 @@ def regions(net, case):
     sup = set(supplied)
     adj = {b: adj[b] & sup for b in supplied}
     bb = {b: bb[b] & sup for b in supplied}
-    seed = supplied[case["seed"] % len(supplied)]
-    comp = _closure([seed], adj)
     slack = set(net.ext_grid.bus[net.ext_grid.in_service].values) | set(net.gen.bus[net.gen.in_service & net.gen.slack].values)
     slack &= sup
+    for k in range(len(supplied)):          # the drawn seed bus first, then the following ones
+        reg = _split(case, supplied[(case["seed"] + k) % len(supplied)], sup, adj, bb, slack)
+        if reg is not None:
+            return reg
+    return None
+
+
+def _split(case, seed, sup, adj, bb, slack):
+    comp = _closure([seed], adj)
     other = "outer" if case["variant"] == "inner" else "inner"
     for variant, radius in [(case["variant"], r) for r in range(case["radius"], -1, -1)] + [(other, r) for r in (1, 0)]:
         ball = {seed}
@@ -147,10 +171,16 @@ def regions(net, case):
             boundary = set().union(*[adj[b] for b in ball]) - ball
         if not boundary:
             continue
+        if case.get("prune", True):
+            # a frontier bus has a neighbour on the far side; other buses next to the ball simply belong to the internal area
+            inside = ball | boundary
+            boundary = {b for b in boundary if adj[b] - inside}
+            if not boundary:
+                continue
         boundary_closed = _closure(boundary, bb)
         if seed in boundary_closed:
             continue
-        internal_all = ball - boundary_closed
+        internal_all = (ball - boundary_closed) or {seed}
         given = sorted(internal_all) if case["give"] == "all" else [seed]
         rest = sup - boundary_closed
         internal = set()
@@ -166,10 +196,12 @@ def regions(net, case):
             external = external - moved
         if not external:
             continue
+        ints = lambda x: sorted(int(v) for v in x)   # noqa: E731
+        touching = {b for b in boundary_closed | moved if adj[b] & external}
         return {"seed": seed, "radius": radius, "variant": variant,
-                "boundary_given": sorted(boundary_closed if case["close"] else boundary), "internal_given": given,
-                "boundary": sorted(boundary_closed | moved), "internal": sorted(internal), "external": sorted(external),
-                "component": comp, "moved": sorted(moved)}
+                "boundary_given": ints(boundary_closed if case["close"] else boundary), "internal_given": ints(given),
+                "boundary": ints(boundary_closed | moved), "internal": ints(internal), "external": ints(external),
+                "component": comp, "moved": ints(moved), "detached_boundary": ints((boundary_closed | moved) - touching)}
     return None
 
 
@@ -238,7 +270,8 @@ def check(case):
         if kind == "skip" and what == "not-converged":
             res.skipped = "equivalent-not-converged"
         else:
-            res.fail("get_equivalent-raised/%s/%s" % (eq_type, exc_sig(raised)), error=repr(raised)[:300], regions=_short(reg))
+            res.fail("raised/%s/%s/%s" % (eq_type, exc_sig(raised), _cause(net, reg, eq_type, raised)),
+                     error=repr(raised)[:300], regions=_short(reg), kw=case["kw"])
         return res
     if net_eq is None:
         res.fail("returned-None/" + eq_type, regions=_short(reg))
@@ -284,6 +317,24 @@ def check(case):
     for k, v in sorted(case["kw"].items()):
         res.label("%s=%s" % (k, v))
     return res
+
+
+def _cause(net, reg, eq_type, e):
+    """root-cause class of an exception of get_equivalent from facts about the input (known shapes), else 'other'"""
+    where = exc_sig(e)
+    bnd, ext = set(reg["boundary"]), set(reg["external"])
+    slack_gen_bnd = len(net.gen) and (net.gen.slack & net.gen.in_service & net.gen.bus.isin(bnd)).any()
+    if where.startswith("ValueError@grid_equivalents/ward_generation.py:_replace_external_area_by_") and slack_gen_bnd \
+            and "duplicate labels" in str(e):
+        return "slack-gen-at-boundary"
+    if where == "IndexError@grid_equivalents/rei_generation.py:_create_net_zpbn":
+        eg_ext = (net.ext_grid.in_service & net.ext_grid.bus.isin(ext)).any()
+        gen_ext = len(net.gen) and net.gen.bus.isin(ext).any()
+        if eg_ext and len(net.gen) and not gen_ext:
+            return "external-ext_grid-but-no-external-gen"
+    if where.startswith("FloatingPointError@") and eq_type == "xward" and reg["detached_boundary"]:
+        return "boundary-bus-without-external-neighbour"
+    return "other"
 
 
 def _short(reg):
